@@ -102,6 +102,11 @@ Fixpoint verify_f (fuel : nat) (db : pdb) (want key : list N) (i : nat) : vres :
 (* every iteration either consumes key elements or moves to another database
    entry without consuming; more than |db| consecutive non-consuming
    iterations revisit an entry with the same key, i.e. loop forever *)
+(* The Go loop has NO bound.  For genuine proofs and for every hash-keyed
+   database over a collision-free set any bound >= length key (= 2n+1 for an
+   n-byte key) is never reached (ProofProofs.completeness_fuel / sound_fuel) and
+   2n+1 is needed (ProofProofs.comb_tight); exhaustion is the distinct class
+   [VLoop], never a value. *)
 Definition verify_fuel (key : list N) (db : pdb) : nat :=
   (length key + 1) * (length db + 1) + 1.
 
